@@ -66,6 +66,11 @@ def run(tier, seed):
     if eu.ok or eu.violation not in ("NoLossWhenLocked", "IdentityStableWhenLocked"):
         raise vlib.Infra("CowCache with EarlyUnlock should lose an entry or an identity: the model is vacuous")
     ck.add_mc(eu, "MC_CowCacheEarlyUnlock(deviation witness)")
+    # deviation witness: builders entered in a shared registry before their codecs are built hand out half-built codecs
+    rg = vlib.tlc("CowCache", "MC_CowCacheRegistry.cfg", timeout=600, tag="CowCache-reg")
+    if rg.ok or rg.violation not in ("PublishedComplete", "UsesOwnCompleteCodec"):
+        raise vlib.Infra("CowCache with Registry should publish or use an incomplete codec: the model is vacuous")
+    ck.add_mc(rg, "MC_CowCacheRegistry(deviation witness)")
     ck.binary = vlib.build_harness()
     race = vlib.build_harness(race=True)
     # TLC enumerates the interleavings of the visible cache steps; each is forced on real goroutines (gated replay)
@@ -165,7 +170,8 @@ def run(tier, seed):
                "through blocking cache hooks on json, proto codec, proto.TypeOf, thrift encoder and decoder caches - the steps must be "
                "reachable in that order, the results right and the published map afterwards (hits of follow-up calls) the model's, lost "
                "updates included, also under the race detector; the real packages are stressed with fresh reflect.StructOf types behind a barrier "
-               "at GOMAXPROCS 1/2/4/16, every result compared with the same call made alone, the cache/pool hook trace validated by TLC against "
+               "at GOMAXPROCS 1/2/4/16 (each round begins with every goroutine's first call on one big fresh type - 36 fields over six nested "
+               "struct types - and on a type that holds it, let go together: the deviation Registry of the model), every result compared with the same call made alone, the cache/pool hook trace validated by TLC against "
                "spec/TraceConcurrency.tla, and the same workload run under the race detector. distinct_nontrivial = traces validated + race runs")
     ck.assumptions = ["free-running schedules are sampled, not enumerated: absence of races is shown for the explored executions only",
                       "map and object identities are addresses; GC is off while a trace is recorded so that addresses are not reused"]
